@@ -38,7 +38,7 @@ func runCLI(bin, dir string, deadline time.Duration, args ...string) (out string
 	return o, false, e
 }
 
-var c13Seeds = 18 // keep in step with verifSeed in harness/Parser/zz_verif_text.go
+var c13Seeds = 24 // keep in step with verifSeed in harness/Parser/zz_verif_text.go
 
 func textFromModel(v gosym.Violation, name string) string {
 	var b []byte
@@ -71,7 +71,7 @@ func C13(c *Ctx) {
 		Lall, Lempty, Ntok = 2, 4, 4
 	}
 	c.Bound("byte level: every ASCII string of length <= %d; each of %d seeds (%%union, %%{, /*, //, ', \", {, $, %%token <, %%start, ...) followed by every ASCII string of length <= %d; token level: every stream of <= %d tokens over all 27 kinds then end of stream; loop bound 300 per loop", Lempty, c13Seeds, Lall, Ntok)
-	c.Outside = append(c.Outside, "non-ASCII bytes", "hangs that need more than the bounded suffix after a seed", "BuildLALR1 and the builders after a successful Parse (decided for corpus grammars by the other checks)", "file I/O of the CLI")
+	c.Outside = append(c.Outside, "non-ASCII bytes other than the concrete non-ASCII seeds (symbolic bytes are ASCII)", "hangs that need more than the bounded suffix after a seed", "BuildLALR1 and the builders after a successful Parse (decided for corpus grammars by the other checks)", "file I/O of the CLI")
 	c.Assumptions = append(c.Assumptions, "coroutine model of the lexer goroutine (control moves at channel operations only)", "utf8/unicode modelled for ASCII")
 	type jobT struct{ seed, L int }
 	var jobs []jobT
@@ -118,7 +118,8 @@ func C13(c *Ctx) {
 	c.NeedCovers("terminated", "parsed", "diagnostic")
 }
 
-var seedTexts = []string{"", "%union", "%{", "/*", "//", "'", "\"", "{", "$", "%token <", "%token", "%start", "%type", "%left", "%%", "%token A\n%%\nA:", "%%\nA : B %prec", "%token <t> A 'c'\n%type <t> B\n%start B\n%%\nB: A {x} |"}
+var seedTexts = []string{"", "%union", "%{", "/*", "//", "'", "\"", "{", "$", "%token <", "%token", "%start", "%type", "%left", "%%", "%token A\n%%\nA:", "%%\nA : B %prec", "%token <t> A 'c'\n%type <t> B\n%start B\n%%\nB: A {x} |",
+	"\u0663", "%token A\n\u0663", "\u00e9", "%token \u00e9", "\xff", "%%\nA: '\u00e9"}
 
 func seedText(i int) string {
 	if i < 0 || i >= len(seedTexts) {
